@@ -296,6 +296,12 @@ def check_run(s: S.Sim, profile: str, res: CompResult, ops: list[str]) -> None:
         fire(sorted(set(props)), f"internal-error:{text.split(':')[0]}@{where}", f"the controller loop raised {text}", {"notes": s.notes[-5:]})
         return
 
+    if s.q_breaks:
+        at, wid, book, npend = s.q_breaks[0]
+        fire(["C02"], "starved-worker:load", f"after controller event #{at} worker {wid} (collection registered, not told to shut down) holds {book} "
+             f"while {npend} tests are still unassigned: it cannot start its last test and nothing obliges the controller to send more", {"breaks": s.q_breaks[:5]})
+    if len(set(s.ready_ids)) != len(s.ready_ids):
+        fire(["C02"], "worker-id-reused", f"a worker id reported ready twice: {s.ready_ids} (hypothesis of C02_controller_load)")
     written_off_alive = [w.id for w in s.workers if cfg.boot_crash.get(w.number) == "garbage" and w.pc not in ("boot", "collect")]
     if written_off_alive:
         # One root cause, one signature: after an undecodable message the worker is written off (its tests are re-dispatched, a
